@@ -37,6 +37,9 @@ THEOREMS = [
     # the tie to the source: Generated/AcctStep.lean is re-translated from accountants/{rdp,prv,gdp}.py on every run
     "Opacus.C05.generated_step_eq_model",
     "Opacus.C05.generated_step_accounts_once",
+    # the tie to the source: Generated/PreStep.lean (phase order of pre_step, step gate, accountant hook arguments)
+    "Opacus.C05.generated_pre_step_eq_model",
+    "Opacus.C05.skipped_step_neither_noised_nor_accounted",
 ]
 RULE = (
     "case = (optimizer kind, Poisson?, accountant rdp|prv|gdp, history of epochs / BatchMemoryManager-style splits / scheduler writes / empty batches / "
@@ -44,6 +47,7 @@ RULE = (
     "(a skipped step OR a sigma change OR an empty batch OR an error outcome); distinct by (config, op sequence)"
 )
 TRUSTED = [
+    "the translator vharness/props/c05_prestep_trans.py (Python `ast` -> the phase list of DPOptimizer.pre_step / DPOptimizerFastGradientClipping.pre_step in source order, the gate of DPOptimizer.step, and the keyword arguments of the accountant hook's self.step call as real expressions; subset in its docstring, anything else is reported as a broken tie) is trusted to render those functions faithfully; what each phase DOES is tied by the behavioural correspondence and the C02/C03/C04/C11 translators",
     "the translator vharness/props/c05_trans.py (Python `ast` -> pure functions on the history list: pop / [-1] / append / rebinding / raise, subset in its docstring; anything else is reported as a broken tie) is trusted to render the three accountants' step() faithfully; float == is rendered as equality (NaN parameters are outside the model); the same methods are run against the model by the behavioural correspondence",
     "sample rates are observed as multiples k of q = 1/1000 (k recovered by rounding; |rate − q·k| < 1e-15 asserted)",
     "DistributedPerLayerOptimizer (noise inside backward hooks) is not in this machine; its accounting path is the same step_hook (see C18)",
@@ -299,6 +303,8 @@ def regenerate(ctx):
     from .. import regen
     from . import c05_trans as T
     regen.regenerate(ctx, T, "Opacus.Generated.Acct", "accountants/{rdp,prv,gdp}.py:step")
+    from . import c05_prestep_trans as TP
+    regen.regenerate(ctx, TP, "Opacus.Generated.PreStep", "pre_step of both DP optimizers, DPOptimizer.step, accountant hook arguments")
 
 
 def run(ctx):
